@@ -190,6 +190,25 @@ def run_line(inp):
                 escaped.append(type(e).__name__)
                 raise
         proto.handle_request = spy
+        if "prelude" in inp and device is not None:
+            # a real history: first another request on the same manager and device (with its own
+            # injected faults); only the state it leaves behind matters for the request under test
+            pre = inp["prelude"]
+            main_faults = dev.p.faults
+            dev.p.faults = {int(k): tuple(e) for k, e in pre.get("faults", {}).items()}
+            praw = json.dumps(pre["request"]).encode("utf-8") + b"\n"
+            try:
+                _RequestHandler(proto, logging.getLogger("verif")).handle("client", io.BytesIO(praw), io.BytesIO())
+            except BaseException:
+                pass
+            dev.p.faults = main_faults
+            dev.n = 0
+            simdev.CTX.events = []
+            simdev.CTX.recorded = []
+            escaped.clear()
+            inp = dict(inp)
+            inp["comm_issue"] = bool(p2._comm_issue)
+            inp["conns"] = list(simdev.CTX.conns)
         w = io.BytesIO()
         shutdown, outer = False, ""
         try:
